@@ -9,9 +9,14 @@
          derivatives; the table regime evaluates the Taylor polynomial of K_l about the node
    C14e  accuracy in exact arithmetic: 0 ≤ K_l ≤ 1 and |K_l^(n)| ≤ 2^n on z ≥ 0; Lagrange remainder of the table regime < 1e-14 for
          the shipped grid; truncation error of every stored row entry is below the series accuracy (all l); end to end: the Taylor
-         value computed from the tables `tabulate` stores is within 1e-14 + 1.02·acc of e^{-z} i_l(z) -/
+         value computed from the tables `tabulate` stores is within 1e-14 + 1.02·acc of e^{-z} i_l(z)
+   C14f  THE PROPERTY IN EXACT ARITHMETIC: for the table `build` makes with the shipped constants, every real z and every order
+         l ≤ lMax ≤ 15, both evaluators (`calcAll`, `calcOne` - all four regimes and the node shortcut) are within 1e-12 of
+         e^{-z} i_l(z) and within 2e-12 of each other; what `upper_bound` returns, and that it is NOT an upper bound
+         (upperBound T (3/200) 1 < K 1 (3/200): the root of the recorded finding estimate-not-a-bound) -/
 import Ecpint.Props.C14
 import Ecpint.Props.C14b
 import Ecpint.Props.C14c
 import Ecpint.Props.C14d
 import Ecpint.Props.C14e
+import Ecpint.Props.C14f
